@@ -7,7 +7,7 @@ from lv import core, model, ref, canon, drive, functorgen
 from lv.props import common
 
 ID = 'C04'
-BUDGET = {'quick': 192, 'thorough': 3000}      # generated programs (~20 evaluations each)
+BUDGET = {'quick': 288, 'thorough': 3000}      # generated programs (~20 evaluations each)
 WALL = {'quick': 2400, 'thorough': 14400}   # last resort only; a shard cut here loses its cases
 RULE = ('layered non-recursive programs from the typed generator (facts with duplicates, '
         'joins, disjunction, negation, aggregation, functional predicates, nullary '
